@@ -197,7 +197,7 @@ func (e *Encoder) havocMod(env *Env, m Expr, st *State) (err error) {
 		if id, ok := call.Fun.(*EIdent); ok && id.Name == "elems" {
 			v := env.elab(call.Args[0])
 			elem := v.T.Underlying().(*types.Slice).Elem()
-			return e.havocRange(st, v, elem)
+			return e.havocElems(st, v, elem)
 		}
 	}
 	loc, t, ok := env.addr(m)
@@ -309,9 +309,9 @@ func (e *Encoder) builtin(bi *ssa.Builtin, cm *ssa.CallCommon, args []Val, resT 
 		}
 		return r
 	case "append":
-		return e.appendBuiltin(cm, args, st, pc)
+		return e.appendArr(cm, args, st, pc)
 	case "copy":
-		return e.copyBuiltin(cm, args, st, pc)
+		return e.copyArr(cm, args, st, pc)
 	case "print", "println":
 		return Val{T: resT}
 	case "ssa:wrapnilchk":
